@@ -392,7 +392,7 @@ pub fn generate_c05(tier: &str, rng: &mut Prng) -> Vec<Case> {
         for _ in 0..per {
             seeds.push(seed_for(rng, 5));
         }
-        for (kind, q) in [("range_fg", 3), ("range_capital", 4), ("gamma_above", 2), ("f_product_one", 1), ("h_top_zero", 1), ("h_const_zero", 1)] {
+        for (kind, q) in [("range_fg", 3), ("range_capital", 4), ("gamma_above", 2), ("f_product_one", 1), ("h_top_zero", 1), ("h_const_zero", 1), ("g_ntt_zero", 1)] {
             seeds.extend(crate::seeds::special(n, tier, kind, q));
         }
         for seed in seeds {
